@@ -302,6 +302,21 @@ inline Var* FindVar(const void* addr, const char* label) noexcept {
   return &v;
 }
 
+// a new object begins / an object ended at this address: drop its shadow (a later object at the same address is a
+// different variable; allocator-internal ordering is invisible to the monitor)
+inline void Forget(const void* addr) noexcept {
+  if (!g.on || g.disabled) {
+    return;
+  }
+  for (int i = 0; i < g.nvars; ++i) {
+    if (g.vars[i].addr == addr) {
+      g.vars[i] = g.vars[g.nvars - 1];
+      --g.nvars;
+      return;
+    }
+  }
+}
+
 inline const char* KindName(int k) noexcept {
   static const char* const n[] = {"load", "store", "rmw", "cas-fail", "fence", "lock", "unlock", "thread-start", "thread-exit", "join"};
   return k >= 0 && k < 10 ? n[k] : "?";
